@@ -69,10 +69,22 @@ pub fn run(out: &mut Out, rng: &mut Rng, thorough: bool) {
             ("on_boundary", 2, false, 60),
             ("uniform", 1, false, 200),
             ("coplanar", 3, false, 80),
+            // one cell with hundreds of faces / vertices; more than a thousand generators of very uneven density
+            ("void_shell", 3, false, 330),
+            ("void_shell", 3, true, 280),
+            ("void_shell", 2, false, 300),
+            ("blob_isolated", 3, false, 1100),
+            ("blob_isolated", 2, true, 1300),
         ] {
             let n = if thorough && rep % 2 == 1 { n * 8 } else { n };
             let inp = gen::make(rng, fam, dim, periodic, n);
-            let mask = if rng.chance(0.3) { Some(gen::make_mask(rng, inp.gens.len())) } else { None };
+            let mask = if fam == "blob_isolated" && rng.bool() {
+                Some(gen::make_mask_local(rng, inp.gens.len()))
+            } else if rng.chance(0.3) {
+                Some(gen::make_mask(rng, inp.gens.len()))
+            } else {
+                None
+            };
             let mut res;
             #[cfg(feature = "rayon")]
             {
